@@ -289,7 +289,9 @@ func storeCase(t *rapid.T) {
 
 	// the temp-block path: remove the tip keeping a temp copy, reload it from a cold DataAccess
 	removed := false
-	if len(blocks) >= 2 && rapid.Bool().Draw(t, "removeTip") {
+	// (only when the removal cannot empty the block cache: since 3c47278 RemoveBlock then refills the cache through PrepareCache, which
+	// reads heights below the tip that a harness chain starting at an arbitrary base height does not have — a harness artefact)
+	if len(blocks) >= 2 && cacheSize >= 2 && rapid.Bool().Draw(t, "removeTip") {
 		if err := chain.RemoveBlock(database.NewBatch(), true); err != nil {
 			t.Fatalf("C08(d) harness: RemoveBlock: %v", err)
 		}
